@@ -84,6 +84,7 @@ def cfgs_plans(tier, rng):
     for k in range(5 if tier == "quick" else 14):
         out.append(cfgmod.make(n=pick(rng, [1, 2, 3, 4]), head=1, manual=(k // 2) % 2, limit=pick(rng, [2, 4]), cap=[1, 2, 3, 4][k % 4],
                                payload=pick(rng, [0, 0, 2]), plans=1, serial=k % 2, history=1, log="on"))
+    out.append(cfgmod.make(n=3, head=1, manual=0, limit=2, cap=2, payload=2, plans=1, serial=1, history=1, log="off"))     # no logger: origins of plan-issued requests are still visible to guards and history
     return out
 
 def cfgs_plans9(tier, rng):
@@ -138,6 +139,9 @@ def cfgs_logging(tier, rng):
         out.append(cfgmod.make(n=pick(rng, [1, 2, 3]), head=(k // 2) % 2 if k % 5 else 1, manual=k % 2, limit=2, cap=2, payload=pick(rng, [0, 2]),
                                inj_state=pick(rng, [0, 0, 1]), inj_root=pick(rng, [0, 0, 1]), plans=1 if k % 3 else 0, history=k % 2,
                                log=["on", "verbose"][k % 2], defroot=dr, defstate=ds))
+    # logging compiled out: the same scripts must give the same callbacks and states (compared with the model under log=off)
+    out.append(cfgmod.make(n=3, head=1, manual=0, limit=2, cap=3, payload=0, plans=1, history=1, log="off"))
+    out.append(cfgmod.make(n=2, head=1, manual=1, limit=2, cap=2, payload=2, plans=1, history=1, log="off"))
     return out
 
 P_LOG = P_LIFE.with_(w_ops=dict(attachLogger=5, succeed=3, fail=2, plan_append=3, copy=1, loadfrom=0),
@@ -260,8 +264,13 @@ def check_C14(run):
         for l in mout.splitlines()[1:]:
             run.distinct.add((n, h, l))
         if len(run.samples) < 2 and n in (5, 33): run.samples.append(dict(cfg=cfgname, trace=mout.splitlines()[:6]))
+    spec_init = MachineSpec("C14", T.p_C04, P_LIMIT.with_(n_ops=(4, 12), w_ops=dict(destroy_construct=8, exit_enter=8, update=2, immChange=2), w_meth=dict(guard=10, phase=0, life=0)),
+                            lambda t, r: [cfgmod.make(n=n, head=h, manual=m, limit=L, history=1) for (n, h, m, L) in ((2, 1, 0, 2), (4, 0, 1, 3), (3, 1, 1, 1), (5, 0, 0, 4))],
+                            lambda t: 40 if t == "quick" else 200, lambda ls, c: has(ls, guard_cb), monitor_ids=["C04"])
+    engine.run_machine(run, spec_init)
     run.violations.sort(key=lambda v: len(v.get("impl", "")))
-    return dict(rule="one machine per state count N (quick: 1..17, 31..33, 63..65 with and without head, both header variants, plus 127..129, 254, 255 once; thorough: every N in 1..255 "
+    return dict(rule="(b) activation-heavy generated scripts (entry guards that redirect and veto at activation): the machine must come up in the first declared state unless a redirect survived; "
+                     "(a) one machine per state count N (quick: 1..17, 31..33, 63..65 with and without head, both header variants, plus 127..129, 254, 255 once; thorough: every N in 1..255 "
                      "x head x variant); for every k < N: immediateChangeTo(k), update(), react(), query() - all twelve callback kinds; an evaluation is one (N, k) probe; distinct non-trivial = distinct (N, head, probe line)",
                 explanation="", exhaustive=(tier != "quick"))
 
@@ -321,7 +330,7 @@ def check_C17(run):
     facts = subprocess.run([sys.executable, os.path.join(common.VERIF, "tools", "initfacts.py")], capture_output=True, text=True)
     try: run.extra["generated_facts"] = json.loads(facts.stdout.strip().split("\n")[-1])
     except Exception: run.extra["generated_facts"] = dict(error=(facts.stdout + facts.stderr)[-500:])
-    run.proof = proofs.check_property("C17")          # after regenerating Generated/InitFacts.v
+    run.proof = proofs.check_property("C17", tier=run.tier)          # after regenerating Generated/InitFacts.v
     engine.run_machine(run, SPEC_C17)
     # the same history over different prior memory contents must give the same trace (implementation against itself)
     cfgs = cfgs_copies(run.tier, random.Random(7)); rng = run.rng
@@ -355,7 +364,7 @@ CHECKS["C17"] = check_C17
 
 def run_check(pid, tier, seed):
     run = Run(pid, tier, seed)
-    run.proof = proofs.check_property(pid) if pid not in ("C17",) else None
+    run.proof = proofs.check_property(pid, tier=tier) if pid not in ("C17",) else None
     info = CHECKS[pid](run)
     run.extra.update({k: v for k, v in info.items() if k not in ("rule", "explanation")})
     level = info.get("level", "proof")
@@ -548,6 +557,19 @@ def check_C19(run):
     spec = MachineSpec("C19", T.p_all, P_NEUTRAL, cfgs_features, lambda t: 20 if t == "quick" else 80,
                        lambda ls, c: has(ls, guard_cb) and has(ls, life_cb), monitor_ids=["C01", "C02", "C03"])
     engine.run_machine(run, spec)
+    # ... and programs that use ONE feature (plans) while the other switches vary: enabling serialization / history / logging must not change them
+    def cfgs_plans_crossed(tier, rng):
+        out = []
+        combos = [(sr, h, lg) for sr in (0, 1) for h in (0, 1) for lg in ("off", "on")]
+        if tier == "quick": combos = [combos[i] for i in (0, 3, 5, 6)]
+        for k, (sr, h, lg) in enumerate(combos):
+            n, cap = [(5, 2), (3, 4), (9, 3), (2, 1)][k % 4]          # capacities chosen away from 1 + bitWidth(n)
+            out.append(cfgmod.make(n=n, head=1, manual=k % 2, limit=2, cap=cap, payload=0, plans=1, serial=sr, history=h, log=lg))
+        return out
+    spec2 = MachineSpec("C19", T.p_all, P_PLANS.with_(n_ops=(8, 24), w_ops=dict(loadfrom=0, replayTransition=0, attachLogger=0, copy=0), p_logger_at_construct=0.0),
+                        cfgs_plans_crossed, lambda t: 15 if t == "quick" else 60,
+                        lambda ls, c: has(ls, lambda l: (l.kind == "did" and l.act[0] == "plan.append") or (l.kind == "api" and l.op == "plan.append")), monitor_ids=["C10"])
+    engine.run_machine(run, spec2)
     run.samples = run.samples[:2] + [dict(compile_job="%s -std=%s -fsyntax-only %s matrix_tu.cpp (%s header)" % (jobs[5][2], jobs[5][1], " ".join(mask_flags(names, jobs[5][0])), jobs[5][5]))]
     return dict(level="other", exhaustive=(tier != "quick"),
                 rule="(1) -fsyntax-only of an API-covering translation unit for switch masks x {C++11,14,17,20} x {g++, clang++} x activation x payload x header variant "
